@@ -21,6 +21,7 @@ func run(c *Ctx) {
 	}
 	ml.RunFlvScripts(c, "c01", fl)
 	wireRuns(c)
+	ml.StressRuns(c, "c01", c.Budget(4, 40))
 	ml.FlvWireRuns(c)
 	for _, hevc := range []bool{false, true} {
 		ml.RecordOutcome(c, ml.ScJoinRace(false, hevc), "c01")
